@@ -29,7 +29,7 @@ REQUIRED = {
 
 
 def budget(tier):
-    return 200 if tier == "quick" else 6000
+    return 200 if tier == "quick" else 60000
 
 
 def gen_case(rng, tier, idx):
